@@ -3868,7 +3868,7 @@ void space_text()
          }
          next->SetColumn(column);
 #ifdef UNC_VERIF
-         verif::space(pc, next, static_cast<int>(av), min_sp, prev_column, column);
+         verif::space(pc, next, static_cast<int>(av), min_sp, prev_column, column, QT_SIGNAL_SLOT_found);
 #endif
          LOG_FMT(LSPACE, "%s(%d): orig line is %zu, orig col is %zu, pc-Text() '%s', type is %s\n",
                  __func__, __LINE__, pc->GetOrigLine(), pc->GetOrigCol(), pc->Text(), get_token_name(pc->GetType()));
